@@ -20,6 +20,7 @@ pub fn profiles(prop: &str) -> Vec<(Box<dyn Profile>, u64)> {
         "C03" => vec![(Box::new(profile::f1::WireFaults), 1)],
         "C04" => vec![(Box::new(profile::f1::Misdeliver), 1)],
         "C12" => vec![(Box::new(profile::twin::ProxyTwin), 1)],
+        "C06" => vec![(Box::new(profile::f2::EntryPointTwin), 1)],
         "C07" => vec![(Box::new(profile::f3::F3 { prop: "C07" }), 1)],
         "C08" => vec![(Box::new(profile::f3::F3 { prop: "C08" }), 1)],
         "C09" => vec![(Box::new(profile::f3::F3 { prop: "C09" }), 1)],
